@@ -81,8 +81,12 @@ SliceM(s, a) == LET rs == ToIntClamp(Arg(a, 1))
                     from == IF rs < 0 THEN Max(Len(s) + rs, 0) ELSE Min(rs, Len(s))
                     to   == IF re < 0 THEN Max(Len(s) + re, 0) ELSE Min(re, Len(s))
                 IN RVal(VStr(Slice(s, from, to)))
+\* ECMA-262 leaves the longest possible string to the implementation; the engine documents 2^30 - 25 units and refuses a
+\* longer result with RangeError, as for an invalid count (the clamp Lim = 2^30 is where the model stops counting)
 RepeatM(s, a) == LET n == ToIntClamp(Arg(a, 1))
                  IN IF n < 0 \/ IsPosInfArg(Arg(a, 1)) THEN RThrow("RangeError")
+                    ELSE IF s = <<>> THEN RVal(VStr(<<>>))
+                    ELSE IF n >= Lim THEN RThrow("RangeError")
                     ELSE RVal(VStr(Repeat(s, n)))
 ConcatM(s, a) == RVal(VStr(s \o Flatten([i \in 1..Len(a) |-> ToStrU(a[i])])))
 TrimM(s) == RVal(VStr(Trim(s)))
@@ -94,10 +98,18 @@ ToUpperM(s) == RVal(VStr([i \in 1..Len(s) |-> UpperAscii(s[i])]))
 ToStringM(s) == RVal(VStr(s))
 LengthM(s) == RVal(VInt(Len(s)))
 \* s[k] for a number key: the unit when k is an integer index in range, else undefined
+IndexKeyTexts == {U("0"), U("1"), U("2"), U("3"), U("7"), U("01"), U("00"), U(" 1"), U("1 "), U("+1"), U("-0"), U("-1"), U("1.0"), U("1."),
+                  U("1e0"), U("0x1"), U("1_0"), <<>>, <<1633>>, <<65297>>, U("10"), U("4294967296"), U("NaN"), U("Infinity")}
+\* a string key is an index only when it is the canonical decimal text of an integer ("1"; not "01", " 1", "+1", "-0", "1.0")
+CanonIndexText(u) == /\ u # <<>> /\ Len(u) <= 9 /\ \A j \in 1..Len(u) : IsDigitUnit(u[j])
+                     /\ (Len(u) = 1 \/ u[1] # 48)
 IndexM(s, a) == LET k == Arg(a, 1)
                 IN IF k.k = "num" /\ WIsSmallInt(k.w) /\ ~(WIsZero(k.w) /\ WSign(k.w) = 1 /\ FALSE)
                       /\ WTruncClamp(k.w) >= 0 /\ WTruncClamp(k.w) < Len(s)
-                   THEN RVal(VStr(<<s[WTruncClamp(k.w) + 1]>>)) ELSE RVal(Undef)
+                   THEN RVal(VStr(<<s[WTruncClamp(k.w) + 1]>>))
+                   ELSE IF k.k = "str" /\ CanonIndexText(k.u) /\ DigitsVal(k.u) < Len(s)
+                   THEN RVal(VStr(<<s[DigitsVal(k.u) + 1]>>))
+                   ELSE RVal(Undef)
 \* split with a string (or undefined) separator
 RECURSIVE SplitAt(_, _, _)
 SplitAt(s, sep, from) ==                        \* pieces of s starting at 0-based `from`, sep non-empty
@@ -202,9 +214,10 @@ Supported(m, s, a) ==
   /\ (m \in {"replace_fn", "replaceAll_fn"} => Len(a) = 1)
   /\ (m = "fn:String.fromCharCode" => \A i \in 1..Len(a) : Uint16Supported(a[i]))
   /\ (m \in {"fn:String", "fn:String.fromCharCode"} => s = <<>>)          \* plain functions: no receiver
-  /\ (m = "repeat" => Len(a) = 1 /\ (s = <<>> \/ ToIntClamp(a[1]) <= 6 \/ IsPosInfArg(a[1])))
+  /\ (m = "repeat" => Len(a) = 1 /\ (s = <<>> \/ ToIntClamp(a[1]) <= 6 \/ ToIntClamp(a[1]) >= Lim \/ IsPosInfArg(a[1])))
   /\ (m = "split" /\ Len(a) >= 2 => SplitLimitSupported(a[2]))
-  /\ (m = "[]" => Len(a) = 1 /\ a[1].k = "num" /\ (WIsSmallInt(a[1].w) \/ WIsNaN(a[1].w) \/ WIsInf(a[1].w)) /\ a[1].w # WNegZero)
+  /\ (m = "[]" => Len(a) = 1 /\ ((a[1].k = "num" /\ (WIsSmallInt(a[1].w) \/ WIsNaN(a[1].w) \/ WIsInf(a[1].w)) /\ a[1].w # WNegZero)
+                                 \/ (a[1].k = "str" /\ a[1].u \in IndexKeyTexts)))      \* keys that name no other property of a string
   \* documented restriction: ASCII-only case mapping; receivers with non-ASCII units are not judged
   /\ (m \in {"toLowerCase", "toUpperCase"} => \A i \in 1..Len(s) : IsAsciiUnit(s[i]))
 =============================================================================
